@@ -25,7 +25,8 @@ ObsFailing(e, o, a, st) ==          \* observations made after every event, o = 
   {c \in {"NoException", "ModelStep", "FrameBookkeeping", "WorldGeometryUnchanged", "CacheCoherent"} :
      ~ CASE c = "NoException"            -> e.exc = "none"
          [] c = "ModelStep"              -> ~st
-         [] c = "FrameBookkeeping"       -> e.exc = "none" => \A b \in Bodies : Lab(e.ofr[b]) = o[b] /\ e.arr[b] = a[b]
+         \* e.ofr[b]: every label whose pose value equals the matrix observed in body2origin_ (a moved-back body has two)
+         [] c = "FrameBookkeeping"       -> e.exc = "none" => \A b \in Bodies : (\E k \in DOMAIN e.ofr[b] : Lab(e.ofr[b][k]) = o[b]) /\ e.arr[b] = a[b]
          [] c = "WorldGeometryUnchanged" -> e.exc = "none" => \A b \in Bodies : e.world[b] <= Slack
          [] c = "CacheCoherent"          -> e.exc = "none" => e.staleCaches = <<>>}
 CallFailing(e) ==
@@ -41,9 +42,10 @@ TNew  == /\ Is("new")
          /\ ver' = [b \in Bodies |-> 0] /\ vfr' = [b \in Bodies |-> <<b, 0>>] /\ ofr' = [b \in Bodies |-> <<b, 0>>]
          /\ arr' = [b \in Bodies |-> b] /\ cache' = [b \in Bodies |-> [c \in Caches |-> None]]
          /\ stale' = FALSE /\ hist' = <<>>
+         /\ pval' = [b \in Bodies |-> <<b, 0>>] /\ vgen' = [b \in Bodies |-> 0] /\ boxc' = [b \in Bodies |-> NoBox]
 TCall == /\ Is("cf") /\ ContactForces(Ev.b1, Ev.b2, Ev.bp, Ev.det)
          /\ Reject(Ev.id, ObsFailing(Ev, ofr', arr', stale') \cup CallFailing(Ev))
-TMove == /\ Is("move") /\ Move(Ev.b1, Ev.how) /\ Reject(Ev.id, ObsFailing(Ev, ofr', arr', stale'))
+TMove == /\ Is("move") /\ Move(Ev.b1, Ev.how, Ev.back) /\ Reject(Ev.id, ObsFailing(Ev, ofr', arr', stale'))
 TTree == /\ Is("tree") /\ Tree(Ev.b1) /\ Reject(Ev.id, ObsFailing(Ev, ofr', arr', stale'))
 TAabb == /\ Is("aabb") /\ Aabb(Ev.b1) /\ Reject(Ev.id, ObsFailing(Ev, ofr', arr', stale'))
 TInsp == /\ Is("inspect") /\ Inspect(Ev.b1) /\ Reject(Ev.id, ObsFailing(Ev, ofr', arr', stale'))
